@@ -161,6 +161,8 @@ def library_pairs(configs, rng, nvec: int, stats: Counter, agree, pid0: int, eve
     """Pairs for the repository's own library functions (harness/libprogs.py), each with input vectors that follow its annotations."""
     from . import libprogs
     pairs, timeouts = [], []
+    # a configuration with a precondition states it in terms of the generated programs' signature: not applicable here
+    configs = [c for c in configs if len(c) < 3 or c[2] is None]
     for i, (name, fn) in enumerate(libprogs.library_functions()):
         if (i + phase) % every:
             continue
